@@ -164,13 +164,30 @@ func genThresholds(e *emitter, maxN int) {
 				genEmptyGraph(e, hist, beh)
 				continue
 			}
+			firstPipe := len(hist)
+			for i, op := range hist {
+				if op.K == "regpipe" {
+					firstPipe = i
+					break
+				}
+			}
 			for thr := 0; thr <= n+1; thr++ {
 				for thrS := 0; thrS <= n+1; thrS++ {
-					h := append(append([]Op{}, hist...),
-						// a rejected negative value and another type's thresholds must not matter
-						Op{K: "thr", Ety: 2, V: int64(n + 1)}, Op{K: "thrs", Ety: 2, V: int64(n + 1)},
-						Op{K: "thr", Ety: 1, V: int64(thr)}, Op{K: "thrs", Ety: 1, V: int64(thrS)},
-						Op{K: "thr", Ety: 1, V: -1}, Op{K: "thrs", Ety: 1, V: -2})
+					// a rejected negative value and another type's thresholds must not matter
+					thrOps := []Op{{K: "thr", Ety: 2, V: int64(n + 1)}, {K: "thrs", Ety: 2, V: int64(n + 1)},
+						{K: "thr", Ety: 1, V: int64(thr)}, {K: "thrs", Ety: 1, V: int64(thrS)},
+						{K: "thr", Ety: 1, V: -1}, {K: "thrs", Ety: 1, V: -2}}
+					if (thr+thrS)%3 == 2 {
+						// the same value set twice
+						thrOps = append(thrOps, Op{K: "thr", Ety: 1, V: int64(thr)}, Op{K: "thrs", Ety: 1, V: int64(thrS)})
+					}
+					var h []Op
+					if (v+thr)%2 == 1 {
+						// thresholds set BEFORE the first pipeline of the type is registered
+						h = append(append(append([]Op{}, hist[:firstPipe]...), thrOps...), hist[firstPipe:]...)
+					} else {
+						h = append(append([]Op{}, hist...), thrOps...)
+					}
 					e.run(Case{Gen: "thresholds", Hist: h, Ety: 1, Beh: beh})
 				}
 			}
@@ -317,9 +334,12 @@ func genPaths(e *emitter) {
 		{"emptied-graph-threshold-error", append(append([]Op{}, nodes...), pipe, Op{K: "thrs", Ety: 1, V: 1}, Op{K: "rmpipe", Pid: 1, Ety: 1}), pass},
 		{"normal", append(append([]Op{}, nodes...), pipe, Op{K: "thr", Ety: 1, V: 1}, Op{K: "thrs", Ety: 1, V: 1}), pass},
 		{"threshold-error", append(append([]Op{}, nodes...), pipe, Op{K: "thr", Ety: 1, V: 2}), pass},
+		{"normal-no-thresholds", append(append([]Op{}, nodes...), pipe), pass},
+		{"huge-threshold", append(append([]Op{}, nodes...), pipe, Op{K: "thrs", Ety: 1, V: 1 << 40}), pass},
+		{"mutating-nodes", append(append([]Op{}, nodes...), pipe, Op{K: "thr", Ety: 1, V: 1}), [][]int{{8}, {8}, {8, 2}}},
 		{"filtered-sink-threshold-error", append(append([]Op{}, nodes...), pipe, Op{K: "thrs", Ety: 1, V: 1}), [][]int{{2}, {0}, {2}}},
 	}
-	for _, code := range []int{3, 4, 5, 6, 70, 71, 72, 73, 80, 81, 82, 83} {
+	for _, code := range []int{3, 4, 5, 6, 70, 71, 72, 73, 80, 81, 82, 83, 90, 91, 92, 93, 94, 95, 96, 97} {
 		for pos := 0; pos < 3; pos += 2 {
 			b := [][]int{{0}, {0}, {2}}
 			b[pos] = []int{code}
@@ -338,6 +358,94 @@ func genPaths(e *emitter) {
 					pt.P = 1
 				}
 				e.run(Case{Gen: "paths-cancel:" + p.name, Hist: p.hist, Ety: 1, Beh: p.beh, Sched: Sched{Ctx: ctxKind, CancelAt: &pt}})
+			}
+		}
+	}
+}
+
+// ---------- classes: look-alike identifiers, the event handed to the first node, odd pipeline shapes ----------
+func genClasses(e *emitter) {
+	// (a) look-alike twins (other case, surrounding white space, trailing NUL, non-ASCII twin, suffix, long) of event types,
+	// pipeline ids and node ids, all registered side by side: every Send must reach exactly the pipelines of ITS type string,
+	// with the nodes of THEIR id strings, and a twin nobody registered has no graph
+	twins := []int{1, 101, 201, 301, 401, 501, 601}
+	{
+		var ops []Op
+		// node ids 1 (filter), 2 (formatter), 3 (sink) and a twin set of each, every one its own object
+		for _, tw := range twins {
+			ops = append(ops, Op{K: "regnode", ID: tw - 1 + 1, Ty: 1}, Op{K: "regnode", ID: tw + 1, Ty: 2}, Op{K: "regnode", ID: tw + 2, Ty: 3})
+		}
+		// type t: pipeline p over the plain nodes; every twin type: pipelines under look-alike pipeline ids over twin nodes
+		for i, tw := range twins {
+			ops = append(ops, Op{K: "regpipe", Pid: 1, Ety: tw, IDs: []int{tw, tw + 1, tw + 2}})
+			other := twins[(i+1)%len(twins)]
+			ops = append(ops, Op{K: "regpipe", Pid: other, Ety: tw, IDs: []int{other, tw + 1, other + 2}})
+			ops = append(ops, Op{K: "thr", Ety: tw, V: int64(i % 3)}, Op{K: "thrs", Ety: tw, V: int64((i + 1) % 3)})
+		}
+		hist, n := numberObjs(ops)
+		for vb := 0; vb < 3; vb++ {
+			beh := make([][]int, n)
+			for o := range beh {
+				beh[o] = []int{[]int{0, 0, 2, 0, 3, 0, 1}[(o+vb*3)%7]}
+			}
+			for _, tw := range twins {
+				e.run(Case{Gen: "classes:twin-types", Hist: hist, Ety: tw, Beh: beh})
+			}
+		}
+		// only some of the twins have a graph: the others must be "no graph", whatever they look like
+		for k, reg := range twins {
+			h2, n2 := numberObjs([]Op{{K: "regnode", ID: 1, Ty: 1}, {K: "regnode", ID: 2, Ty: 2}, {K: "regnode", ID: 3, Ty: 3},
+				{K: "regpipe", Pid: 1, Ety: reg, IDs: []int{1, 2, 3}}, {K: "thr", Ety: reg, V: 1}})
+			beh := make([][]int, n2)
+			for o := range beh {
+				beh[o] = []int{0}
+			}
+			beh[2] = []int{2}
+			for _, tw := range []int{twins[(k+1)%len(twins)], twins[(k+3)%len(twins)], reg} {
+				e.run(Case{Gen: "classes:twin-without-graph", Hist: h2, Ety: tw, Beh: beh})
+			}
+		}
+	}
+	// (b) the event handed to the first node: payload kinds (pointer, nil, string, struct value) x Broker clock (running,
+	// stopped at an instant, stopped at the zero time); two pipelines, the second one's first node sees the same Event
+	{
+		hist, n := numberObjs([]Op{{K: "regnode", ID: 1, Ty: 1}, {K: "regnode", ID: 2, Ty: 2}, {K: "regnode", ID: 3, Ty: 3}, {K: "regnode", ID: 4, Ty: 4},
+			{K: "regpipe", Pid: 1, Ety: 1, IDs: []int{1, 2, 3}}, {K: "regpipe", Pid: 2, Ety: 1, IDs: []int{4, 3}}, {K: "thr", Ety: 1, V: 2}})
+		for payload := 0; payload <= 3; payload++ {
+			for clock := 0; clock <= 2; clock++ {
+				for vb, b := range [][][]int{{{0}, {8}, {2}, {8}}, {{1}, {0}, {0}, {3}}} {
+					c := Case{Gen: "classes:first-event", Hist: hist, Ety: 1, Beh: b, Payload: payload, Clock: clock}
+					_ = n
+					if vb == 1 {
+						c.Sched.Pre = payload%2 == 1
+					}
+					// a second Send on the same Broker: a fresh Event again
+					c.Then = []Step{{Ety: 1}}
+					e.runSeq(c)
+				}
+			}
+		}
+	}
+	// (c) odd but registrable shapes: sink-typed nodes in non-final positions (dropping, failing, passing), a formatter-filter
+	// that drops, the same node twice (adjacent and not), pipelines of 2..5 nodes sharing nodes within and across types
+	{
+		ops := []Op{{K: "regnode", ID: 1, Ty: 1}, {K: "regnode", ID: 2, Ty: 2}, {K: "regnode", ID: 3, Ty: 3}, {K: "regnode", ID: 4, Ty: 4}, {K: "regnode", ID: 5, Ty: 3},
+			{K: "regpipe", Pid: 1, Ety: 1, IDs: []int{5, 2, 3}},       // a sink first
+			{K: "regpipe", Pid: 2, Ety: 1, IDs: []int{1, 5, 4, 3}},    // a sink in the middle
+			{K: "regpipe", Pid: 3, Ety: 1, IDs: []int{1, 1, 4, 5}},    // the same filter twice, adjacent
+			{K: "regpipe", Pid: 4, Ety: 1, IDs: []int{1, 2, 1, 2, 3}}, // not adjacent, five nodes
+			{K: "regpipe", Pid: 1, Ety: 2, IDs: []int{5, 2, 3}},       // the same nodes under another type
+			{K: "thr", Ety: 1, V: 3}, {K: "thrs", Ety: 1, V: 2}}
+		hist, _ := numberObjs(ops)
+		for _, b := range [][][]int{
+			{{0}, {0}, {2}, {0}, {0}},          // everything passes, the last sink completes
+			{{0}, {0}, {2}, {2}, {2}},          // the inner sinks and the formatter-filter drop: complete (sink / not a sink)
+			{{0, 2}, {0}, {0}, {0, 2}, {3, 0}}, // by visit
+			{{1}, {8}, {0}, {1}, {0, 2, 3}},
+		} {
+			for _, et := range []int{1, 2} {
+				e.run(Case{Gen: "classes:shapes", Hist: hist, Ety: et, Beh: b})
+				e.run(Case{Gen: "classes:shapes-pre", Hist: hist, Ety: et, Beh: b, Sched: Sched{Pre: true}})
 			}
 		}
 	}
@@ -375,6 +483,8 @@ func seqMutations(idType map[int]int) [][]Op {
 		{{K: "regnode", ID: 1, Ty: idType[1]}, {K: "regpipe", Pid: 1, Ety: 1, IDs: []int{1, 3, 5}}},
 		{{K: "rpan", Pid: 3, Ety: 1}, {K: "regnode", ID: 1, Ty: idType[1]}, {K: "regnode", ID: 4, Ty: idType[4]}, {K: "regnode", ID: 5, Ty: idType[5]}},
 		{{K: "rpan", Pid: 1, Ety: 2}},
+		// idempotent repeats: removed twice, the same thresholds set again
+		{{K: "rmpipe", Pid: 2, Ety: 1}, {K: "rmpipe", Pid: 2, Ety: 1}, {K: "rpan", Pid: 2, Ety: 1}, {K: "thr", Ety: 1, V: 3}, {K: "thrs", Ety: 1, V: 2}},
 	}
 }
 
@@ -717,7 +827,7 @@ func randomSmallConfig(r *hc.Rand, i int) config {
 	for _, id := range ids {
 		n := 1 + r.Intn(3)
 		for j := 0; j < n; j++ {
-			beh[o[id]-1] = append(beh[o[id]-1], []int{0, 0, 0, 1, 2, 3, 3, 4, 5, 6, 70, 71, 72, 83}[r.Intn(14)])
+			beh[o[id]-1] = append(beh[o[id]-1], []int{0, 0, 0, 1, 2, 3, 3, 4, 5, 6, 70, 71, 72, 83, 8, 90, 92, 96}[r.Intn(18)])
 		}
 		if r.Chance(1, 6) {
 			gate = append(gate, o[id])
@@ -844,7 +954,7 @@ func genRandom(e *emitter, r *hc.Rand, n int) {
 		for o := 0; o < nobj; o++ {
 			l := 1 + r.Intn(3)
 			for j := 0; j < l; j++ {
-				beh[o] = append(beh[o], []int{0, 0, 0, 0, 0, 0, 1, 1, 2, 3, 3, 4, 5, 6, 70, 71, 72, 73, 80, 82}[r.Intn(20)])
+				beh[o] = append(beh[o], []int{0, 0, 0, 0, 0, 0, 0, 1, 1, 2, 3, 3, 4, 5, 6, 70, 71, 72, 73, 80, 82, 8, 8, 90, 91, 92, 93, 94, 95, 96, 97}[r.Intn(31)])
 			}
 			if r.Chance(1, 12) {
 				gate = append(gate, o+1)
